@@ -1,6 +1,11 @@
 """Repository-specific tables: which rules decide which clauses of which property."""
 
 PROPERTIES = {
+    "C08": {
+        "level": "other",
+        "rules": ["B1", "B2", "B3", "B4", "B5"],
+        "explanation": "static: hook protocol",
+    },
     "C11": {
         "level": "other",
         "rules": ["G1"],
